@@ -24,6 +24,18 @@
 //	        into THAT filter (state shared between filters - a package-level scratch
 //	        buffer, a cache - shows up here and nowhere else).
 //
+//	addreload  atomicity of one call: Add(x) of a large element (long hashing) races with
+//	        Reload(B), B of the SAME size and hash-function count but another tweak; the
+//	        final array must be that of "Add;Reload" (B untouched) or of "Reload;Add" (B
+//	        plus x's bits under B's tweak) - anything else is not a sequential order.
+//
+// In adders/churn every goroutine first runs MatchTxAndUpdate over one SHARED list of
+// fresh, never hashed *bchutil.Tx values (bchutil.Tx memoises its hash without
+// synchronisation: on one filter that is race free only if the method touches its argument
+// inside the critical section).  The gcs scenario builds the shared filter through
+// BuildGCSFilter / FromBytes / FromNBytes (by seed), lets the owner rewrite the constructor's
+// input with identical bytes while the queries run (an aliasing constructor is a data race),
+// and afterwards scrambles that input and re-queries (answers and bytes must not change).
 // adders and churn also call bloom.GetMatchedIndices (the block scan built on
 // MatchTxAndUpdate) concurrently with the other operations.
 package main
@@ -88,12 +100,27 @@ func p2pkh(h []byte) []byte {
 	return append(s, 0x88, 0xac)
 }
 
+// payScript: an output script carrying the known element: pay-to-pubkey-hash for a 20-byte element; for a 33-byte
+// key alternately pay-to-pubkey and bare 1-of-2 multisig (the classes BloomUpdateP2PubkeyOnly inserts outpoints for)
+func payScript(r *vh.RNG, known []byte) []byte {
+	if len(known) != 33 {
+		return p2pkh(known)
+	}
+	if r.Intn(2) == 0 {
+		return append(append([]byte{33}, known...), 0xac)
+	}
+	other := append([]byte{0x03}, r.Bytes(32)...)
+	s := append([]byte{0x51, 33}, known...)
+	s = append(append(s, 33), other...)
+	return append(s, 0x52, 0xae)
+}
+
 func mkTx(r *vh.RNG, known []byte) *bchutil.Tx {
 	m := wire.NewMsgTx(1)
 	var prev chainhash.Hash
 	copy(prev[:], r.Bytes(32))
 	m.AddTxIn(wire.NewTxIn(wire.NewOutPoint(&prev, r.U32()), r.Bytes(10)))
-	m.AddTxOut(wire.NewTxOut(int64(r.Intn(100000)), p2pkh(known), wire.TokenData{}))
+	m.AddTxOut(wire.NewTxOut(int64(r.Intn(100000)), payScript(r, known), wire.TokenData{}))
 	return bchutil.NewTx(m)
 }
 
@@ -103,10 +130,16 @@ func childAdders(p params, churn bool) childOut {
 	msg := &wire.MsgFilterLoad{Filter: make([]byte, p.Size), HashFuncs: p.HashFuncs, Tweak: p.Tweak, Flags: wire.BloomUpdateType(p.Flags)}
 	f := bloom.LoadFilter(msg)
 	// data elements every goroutine's transactions pay to: inserted before the goroutines start, so the
-	// transactions always match and (flags = BloomUpdateAll) their outpoint is always inserted
+	// transactions always match and their outpoint is always inserted: flags = BloomUpdateAll with 20-byte address
+	// hashes, or flags = BloomUpdateP2PubkeyOnly with 33-byte keys in pay-to-pubkey / bare multisig outputs
+	updates := p.Flags == uint32(wire.BloomUpdateAll) || p.Flags == uint32(wire.BloomUpdateP2PubkeyOnly)
 	known := make([][]byte, 4)
 	for i := range known {
-		known[i] = rng.Bytes(20)
+		if p.Flags == uint32(wire.BloomUpdateP2PubkeyOnly) {
+			known[i] = append([]byte{0x02}, rng.Bytes(32)...)
+		} else {
+			known[i] = rng.Bytes(20)
+		}
 		f.Add(known[i])
 	}
 	out.Init = vh.Hex(msg.Filter)
@@ -120,6 +153,14 @@ func childAdders(p params, churn bool) childOut {
 		mu.Unlock()
 	}
 	items := make([][][]byte, p.Goroutines)
+	// transactions shared by ALL goroutines, not hashed before the goroutines start
+	var shared []*bchutil.Tx
+	if churn || updates {
+		sr := rng.Fork("shared-tx")
+		for i := 0; i < 40; i++ {
+			shared = append(shared, mkTx(sr, known[i%len(known)]))
+		}
+	}
 	var ops int64
 	start := make(chan struct{})
 	var wg sync.WaitGroup
@@ -136,6 +177,13 @@ func childAdders(p params, churn bool) childOut {
 			<-start
 			var mine [][]byte
 			n := int64(0)
+			for _, tx := range shared {
+				got := f.MatchTxAndUpdate(tx)
+				n++
+				if !churn && !got {
+					violate("C20:matchtx", "MatchTxAndUpdate missed a shared transaction paying to an inserted element", map[string]interface{}{"goroutine": g})
+				}
+			}
 			for j := 0; j < p.PerG; j++ {
 				c := r.Intn(20)
 				switch {
@@ -167,7 +215,7 @@ func childAdders(p params, churn bool) childOut {
 					}
 					n += 2
 				case c < 11:
-					if p.Flags != uint32(wire.BloomUpdateAll) {
+					if !updates {
 						continue
 					}
 					tx := mkTx(r, known[r.Intn(len(known))])
@@ -185,7 +233,7 @@ func childAdders(p params, churn bool) childOut {
 						n++
 					}
 				case c < 14:
-					if r.Intn(4) == 0 && (churn || p.Flags == uint32(wire.BloomUpdateAll)) {
+					if r.Intn(4) == 0 && (churn || updates) {
 						// the block scan, concurrently with everything else: two transactions paying to inserted elements
 						t1, t2 := mkTx(r, known[r.Intn(len(known))]), mkTx(r, known[r.Intn(len(known))])
 						h1, h2 := t1.Hash(), t2.Hash()
@@ -247,6 +295,13 @@ func childAdders(p params, churn bool) childOut {
 		}
 		out.Violations = viol
 		return out
+	}
+	if len(shared) > 0 { // their outpoints were inserted by whichever call came first
+		var so [][]byte
+		for _, tx := range shared {
+			so = append(so, refOutpoint(tx.Hash()[:], 0))
+		}
+		items = append(items, so)
 	}
 	final := f.MsgFilterLoad()
 	ref := refFromBytes(mustHex(out.Init), p.HashFuncs, p.Tweak)
@@ -392,6 +447,87 @@ func childMulti(p params) childOut {
 	return out
 }
 
+// childAddReload: is one Add call atomic with respect to a concurrent Reload? (see the package comment)
+func childAddReload(p params) childOut {
+	out := childOut{Params: p, Race: raceEnabled}
+	rng := vh.NewRNG(p.Seed)
+	var viol []childViolation
+	var ops int64
+	for round := 0; round < p.PerG; round++ {
+		tA := rng.U32()
+		tB := tA + 1 + rng.U32()%1000
+		a := &wire.MsgFilterLoad{Filter: make([]byte, p.Size), HashFuncs: p.HashFuncs, Tweak: tA}
+		b := &wire.MsgFilterLoad{Filter: make([]byte, p.Size), HashFuncs: p.HashFuncs, Tweak: tB}
+		f := bloom.LoadFilter(a)
+		x := rng.Bytes(256 << 10) // hashing 256 KiB HashFuncs times keeps Add busy for a long time
+		delay := time.Duration(200+rng.Intn(3000)) * time.Microsecond
+		var wg sync.WaitGroup
+		stop := make(chan struct{})
+		for g := 0; g < p.Goroutines; g++ {
+			wg.Add(1)
+			go func(g int) {
+				defer wg.Done()
+				switch g {
+				case 0:
+					f.Add(x)
+				case 1:
+					time.Sleep(delay)
+					f.Reload(b)
+				default: // readers, for scheduling noise
+					for {
+						select {
+						case <-stop:
+							return
+						default:
+							f.Matches(x[:20])
+							f.IsLoaded()
+							time.Sleep(100 * time.Microsecond)
+						}
+					}
+				}
+			}(g)
+		}
+		// the adder and the reloader finish on their own; then stop the readers
+		done := make(chan struct{})
+		go func() { wg.Wait(); close(done) }()
+		for f.MsgFilterLoad() != b {
+			time.Sleep(200 * time.Microsecond)
+		}
+		// Reload has happened; Add may still be running: give it time to return, then stop the readers
+		time.Sleep(5 * time.Millisecond)
+		probe := make(chan struct{})
+		go func() { f.IsLoaded(); close(probe) }() // returns only when no Add holds the lock
+		<-probe
+		close(stop)
+		<-done
+		ops += 2
+		zero := true
+		for _, v := range b.Filter {
+			if v != 0 {
+				zero = false
+				break
+			}
+		}
+		ref := refFromBytes(make([]byte, p.Size), p.HashFuncs, tB)
+		ref.insert(x)
+		if !zero && !bytes.Equal(b.Filter, ref.bytes()) {
+			stray := 0
+			want := ref.bytes()
+			for i := range want {
+				if b.Filter[i]&^want[i] != 0 {
+					stray++
+				}
+			}
+			viol = append(viol, childViolation{"C20:atomicity", "Add(x) concurrent with Reload(B): the final array is neither B untouched (Add;Reload) nor B plus x's bits (Reload;Add)",
+				map[string]interface{}{"round": round, "bytes_with_stray_bits": stray, "contains_x": f.Matches(x), "delay_us": delay.Microseconds()}})
+			break
+		}
+	}
+	out.Ops = ops
+	out.Violations = viol
+	return out
+}
+
 func childGCS(p params) childOut {
 	out := childOut{Params: p, Race: raceEnabled}
 	rng := vh.NewRNG(p.Seed)
@@ -404,13 +540,61 @@ func childGCS(p params) childOut {
 	}
 	// f is the filter the goroutines share; it is NOT touched before they start (no warm-up of anything a query
 	// might cache).  The sequential answers come from a second filter object built from the same data.
-	f, err := gcs.BuildGCSFilter(19, 784931, key, data)
 	fseq, err2 := gcs.BuildGCSFilter(19, 784931, key, data)
-	if err != nil || err2 != nil {
-		out.Violations = append(out.Violations, childViolation{"C20:gcs:build", fmt.Sprint(err, err2), nil})
+	if err2 != nil {
+		out.Violations = append(out.Violations, childViolation{"C20:gcs:build", fmt.Sprint(err2), nil})
 		return out
 	}
 	before, _ := fseq.NBytes()
+	// the shared filter comes from one of the three constructors; [input] is the memory the caller handed to it and
+	// still owns, [rewrite] stores the same bytes into it again, [scramble] overwrites it
+	var f *gcs.Filter
+	var err error
+	var rewrite, scramble func()
+	ctor := []string{"BuildGCSFilter", "FromBytes", "FromNBytes"}[p.Seed%3]
+	switch ctor {
+	case "BuildGCSFilter":
+		in := make([][]byte, len(data))
+		for i := range data {
+			in[i] = append([]byte(nil), data[i]...)
+		}
+		f, err = gcs.BuildGCSFilter(19, 784931, key, in)
+		rewrite = func() {
+			for i := range in {
+				copy(in[i], data[i])
+			}
+		}
+		scramble = func() {
+			for i := range in {
+				for j := range in[i] {
+					in[i][j] ^= 0xa5
+				}
+			}
+		}
+	case "FromBytes":
+		raw, _ := fseq.Bytes()
+		in := append([]byte(nil), raw...)
+		f, err = gcs.FromBytes(fseq.N(), 19, 784931, in)
+		rewrite = func() { copy(in, raw) }
+		scramble = func() {
+			for j := range in {
+				in[j] = 0
+			}
+		}
+	default:
+		in := append([]byte(nil), before...)
+		f, err = gcs.FromNBytes(19, 784931, in)
+		rewrite = func() { copy(in, before) }
+		scramble = func() {
+			for j := range in {
+				in[j] = 0
+			}
+		}
+	}
+	if err != nil {
+		out.Violations = append(out.Violations, childViolation{"C20:gcs:build", ctor + ": " + fmt.Sprint(err), nil})
+		return out
+	}
 	type q struct {
 		single []byte
 		many   [][]byte
@@ -481,11 +665,46 @@ func childGCS(p params) childOut {
 			atomic.AddInt64(&ops, int64(p.PerG))
 		}(g, r)
 	}
+	// the owner of the constructor's input keeps using its buffer (same contents) while the queries run
+	stop := make(chan struct{})
+	ownerDone := make(chan struct{})
+	go func() {
+		defer close(ownerDone)
+		<-start
+		for {
+			select {
+			case <-stop:
+				return
+			default:
+				rewrite()
+				time.Sleep(50 * time.Microsecond)
+			}
+		}
+	}()
 	close(start)
 	wg.Wait()
+	close(stop)
+	<-ownerDone
 	after, _ := f.NBytes()
 	if !bytes.Equal(before, after) {
 		viol = append(viol, childViolation{"C20:gcs:mutated", "the filter bytes changed while it was queried", nil})
+	}
+	// ... and then reuses it for something else: the filter must not notice
+	scramble()
+	changed := 0
+	for _, x := range qs {
+		a0, _ := f.Match(key, x.single)
+		a1, _ := f.MatchAny(key, x.many)
+		a2, _ := f.ZipMatchAny(key, x.many)
+		a3, _ := f.HashMatchAny(key, x.many)
+		if [4]bool{a0, a1, a2, a3} != x.want {
+			changed++
+		}
+	}
+	after2, _ := f.NBytes()
+	if changed > 0 || !bytes.Equal(before, after2) {
+		viol = append(viol, childViolation{"C20:gcs:aliased_input", "a filter built by " + ctor + " changed when the caller overwrote the constructor's input afterwards (not immutable)",
+			map[string]interface{}{"constructor": ctor, "queries_with_changed_answers": changed, "bytes_changed": !bytes.Equal(before, after2)}})
 	}
 	out.Ops = ops
 	out.Violations = viol
@@ -630,6 +849,8 @@ func main() {
 			co = childGCS(p)
 		case "multi":
 			co = childMulti(p)
+		case "addreload":
+			co = childAddReload(p)
 		}
 		j, _ := json.Marshal(co)
 		vh.Must(os.WriteFile(*childOutF, j, 0o644))
@@ -681,10 +902,17 @@ func main() {
 			if k == 32 && round == 0 {
 				shape.size, shape.nh = 512, 10
 			}
-			runChild(params{Scenario: "adders", Goroutines: k, PerG: perG, Size: shape.size, HashFuncs: shape.nh, Tweak: r.U32(), Flags: uint32(wire.BloomUpdateAll), Seed: r.U64()})
+			fl := uint32(wire.BloomUpdateAll)
+			if k == 4 || k == 16 { // the P2PubkeyOnly path of maybeAddOutpoint (script classification, pubkey / multisig outputs)
+				fl = uint32(wire.BloomUpdateP2PubkeyOnly)
+			}
+			runChild(params{Scenario: "adders", Goroutines: k, PerG: perG, Size: shape.size, HashFuncs: shape.nh, Tweak: r.U32(), Flags: fl, Seed: r.U64()})
 			if k > 1 {
 				runChild(params{Scenario: "churn", Goroutines: k, PerG: perG, Size: 1 + r.Intn(64), HashFuncs: uint32(r.Intn(51)), Tweak: r.U32(), Flags: uint32(r.Intn(3)), Seed: r.U64()})
 				runChild(params{Scenario: "gcs", Goroutines: k, PerG: 400 / k * 4, Seed: r.U64()})
+				if k == 2 || k == 4 || cfg.Thorough() || cfg.Search {
+					runChild(params{Scenario: "addreload", Goroutines: k, PerG: cfg.Scale(4, 8), Size: vh.Pick(r, []int{64, 1024}), HashFuncs: uint32(10 + r.Intn(20)), Seed: r.U64()})
+				}
 				if k == 2 || k == 8 || k == 32 || cfg.Thorough() || cfg.Search {
 					runChild(params{Scenario: "multi", Goroutines: k, PerG: perG, Size: vh.Pick(r, []int{8, 64, 512}), HashFuncs: uint32(1 + r.Intn(10)), Tweak: r.U32(), Flags: uint32(wire.BloomUpdateAll), Seed: r.U64()})
 				}
